@@ -281,6 +281,13 @@ func (g *gen) optField(sc *scope) FieldDesc {
 		if g.chance(0.7) {
 			tags = append(tags, quoteTag("optional-value", g.valueText(code, choices)))
 		}
+	} else if !isBool && g.chance(0.06) {
+		// an optional-value on an option whose argument is NOT optional (no optional tag, or a falsy
+		// one): the argument stays mandatory in every spelling
+		if g.chance(0.5) {
+			tags = append(tags, quoteTag("optional", []string{"false", "no", "0"}[r.Intn(3)]))
+		}
+		tags = append(tags, quoteTag("optional-value", g.valueText(code, choices)))
 	}
 	if g.chance(g.p.Env) {
 		tags = append(tags, quoteTag("env", []string{"VF_A", "VF_B", "VF_C"}[r.Intn(3)]))
